@@ -718,7 +718,29 @@ impl<'a> Builder<'a> {
         if self.rng.chance(1, 14) {
             return self.wrap_string(sub);
         }
-        match self.rng.below(if self.opts.minimal { 6 } else { 5 }) {
+        match self.rng.below(6) {
+            0 if self.rng.chance(1, 8) => {
+                // A string of one character per word, ended by a word whose low byte is zero but
+                // whose high byte is not (data stored over a string); more text and x0000 follow
+                let first = self.fresh("Wd");
+                let mut first_label = Some(first.clone());
+                let n = 1 + self.rng.usize_below(3);
+                let mut words: Vec<u16> = (0..n).map(|_| 0x41 + self.rng.below(26) as u16).collect();
+                words.push(*self.rng.pick(&[0x4100u16, 0x1200, 0xFF00, 0x0100]));
+                words.push(0x61 + self.rng.below(26) as u16);
+                words.push(0);
+                for word in words {
+                    self.data.push(Stmt {
+                        labels: first_label.take().into_iter().collect(),
+                        text: format!(".fill x{:04X}", word),
+                        words: 1,
+                        breaks: 0,
+                    });
+                }
+                self.emit_to(sub, format!("lea r0, {}", first));
+                self.emit_to(sub, "puts".to_string());
+                self.feature("puts_terminator_zero_low_byte");
+            }
             0 => {
                 let (text, words) = random_string(self.rng);
                 let label = self.data_string(&text, words);
